@@ -12,7 +12,7 @@ MODES = ['debug', 'release']
 IMPORTS = 'Require Import V.Base.MachineInt V.Model.Buffer V.Oracle.C16Oracle.'
 RULE = ('every accessor of AtomicBuffer x element type {u8,u16,i32,i64,u64,24-byte packed struct} on a region that is the middle of a '
         'larger allocation (64-byte guard zones both sides, known pattern): exhaustive (offset, length) grid [-W, cap+W]^2 for small '
-        'capacities (quick: cap in {0,1,4,8,16}, W=10; thorough: cap in {0,1,3,4,8,16,32,64}, W=24), the 7x7 grid of i32 extremes '
+        'capacities (quick: cap in {0,1,4,8,16}, W=8; thorough: cap in {0,1,3,4,8,16,32,64}, W=24), the 7x7 grid of i32 extremes '
         '{MIN,MIN+1,-1,0,1,MAX-1,MAX} (one call per child-process line: a wrongly accepted call may segfault), random i32 values, '
         'planted length words for get_string (small, negative, extreme), accessors applied to views and views of views; debug and '
         'release builds. Calls are batched (<= 40 per line, each on a fresh fixture). A case is non-trivial when some call has a '
@@ -78,6 +78,8 @@ def call_coq(toks):
         return '(CView %s %s %s)' % (z(toks[1]), z(toks[2]), call_coq(toks[3:]))
     if op in TYPED:
         return '(%s %d %s)' % (TYPED[op], SIZES[toks[1]], z(toks[2]))
+    if op == 'efw':         # ErrorResponseFlyweight::new(buf, off).error_code(): Flyweight::new over a 20-byte struct, field at 8
+        return '(FField 20 %s 8 4)' % z(toks[1])
     if op in PLAIN:
         ctor, ar = PLAIN[op]
         assert len(toks) == 1 + ar, toks
@@ -161,6 +163,8 @@ def grid_calls(cap, W, rng, base=0, wrap=None, dense=True):
             cur = le_signed([init_byte(base + off + k) for k in range(4)])
             add('cas32', ['cas32', off, cur, rng.randrange(MINI, MAXI + 1)])
             add('cas32', ['cas32', off, cur ^ 1, 9])
+        if _aligned(base, off, 4):
+            add('efw', ['efw', off])
         add('addo', ['addo', off, rng.choice([0, 1, -1, 2**63 - 1, -2**63, rng.randrange(-2**40, 2**40)])])
         add('gsl', ['gsl', off])
     for off in offs:
@@ -231,6 +235,7 @@ def extreme_cases(rng, caps):
             cases.append(_mk('cas64-ext', cap, 8, [_np(['cas64', a, 1, 2])]))
             cases.append(_mk('cas32-ext', cap, 8, [_np(['cas32', a, 1, 2])]))
             cases.append(_mk('gaa-ext', cap, 8, [_np(['gaa', a, 1])]))
+            cases.append(_mk('efw-ext', cap, 8, [_np(['efw', a])]))
             for ty in (2, 4, 8, 80):
                 cases.append(_mk('asref-ext', cap, 8, [_np(['asref', ty, a])]))
     return cases
@@ -295,7 +300,7 @@ def view_cases(rng, caps, W, per_view):
 def generate(rng, tier):
     big = tier == 'thorough'
     caps = [0, 1, 3, 4, 8, 16, 32, 64] if big else [0, 1, 4, 8, 16]
-    W = 24 if big else 10
+    W = 24 if big else 8
     cases = []
     # boundary values first: the extreme-value grid, one call per line
     cases += extreme_cases(rng, [16, 0] if not big else [16, 0, 64])
@@ -310,7 +315,7 @@ def generate(rng, tier):
         calls = [_np([op, off, n]) for op in ('putb', 'ps', 'pswl') for off in (0, 1, cap - 1, cap, -1) for n in (100, 255, 256, 1000, 65536)]
         calls += [_np(['write', n]) for n in (100, 1000, 65536)]
         cases += _batches('long-slices', cap, 8, calls, size=5)
-    cases += view_cases(rng, [8, 16] if not big else [4, 8, 16, 32], W, 24 if not big else 120)
+    cases += view_cases(rng, [8, 16] if not big else [4, 8, 16, 32], W, 14 if not big else 120)
     cases += random_cases(rng, 400 if not big else 6000)
     # the Coq side evaluates consecutive slices of this list in parallel: interleave one-call lines and batches
     rng.shuffle(cases)
